@@ -305,7 +305,15 @@ class Check:
 
     # --- build + proofs
     def build(self, prop_file, extra_targets=()):
-        """Translate, build the cone of the property file, collect assumptions."""
+        """Translate, build the cone of the property file, collect assumptions.  (Once per run: a second call for the
+        same file returns the first result.)"""
+        memo = self.__dict__.setdefault("_built", {})
+        if prop_file in memo:
+            return memo[prop_file]
+        memo[prop_file] = r = self._build(prop_file, extra_targets)
+        return r
+
+    def _build(self, prop_file, extra_targets=()):
         with BuildLock():
             ok, summ = run_translator()
             self.notes["translator"] = summ
